@@ -211,7 +211,7 @@ theorem C05_seq_all_ok (k : Kind) (steps : List (Pool × Nat × List Nat)) (robi
     intro po hpo
     simp only [selectSeq, List.mem_cons] at hpo
     rcases hpo with rfl | hpo
-    · exact C05_model_verdict_ok k p robin h rs (hw _ (by simp))
+    · exact C05_model_verdict_ok k p robin h rs (hw (p, h, rs) (by simp))
     · exact ih _ (fun s hs => hw s (by simp [hs])) po hpo
 
 /-- The seven policy names the Casketfile accepts are the ones modelled
